@@ -58,6 +58,27 @@ def _guards(view):
     return dbg, rel
 
 
+def _release_guards_below(facts, view, depth, seen):
+    """release-mode constant-only abort guards in the in-crate functions called from `view` (resolved callees, up to three
+    calls deep: the constructor may itself delegate to a shared helper)"""
+    if depth >= 3:
+        return 0
+    n = 0
+    for bi, t in view.calls():
+        if view.blocks[bi]["cleanup"]:
+            continue
+        res = t["f"].get("res")
+        cb = facts.bodies.get(res) if res else None
+        if cb is None or res in seen:
+            continue
+        if "/#" not in (t["f"].get("rargs") or t["f"].get("gargs") or ""):
+            continue        # instantiated at a fixed width: its guards say nothing about the caller's width parameter
+        seen.add(res)
+        cv = mir.BodyView(cb)
+        n += _guards(cv)[1] + _release_guards_below(facts, cv, depth + 1, seen)
+    return n
+
+
 def run(facts, report, config, prefix="c16.dbgsize", counter="primitive_conversions"):
     for b in facts.fn_bodies():
         if b["kind"] == "Closure" or not SCOPE.search(b["id"]) or b.get("name") != "from":
@@ -65,14 +86,7 @@ def run(facts, report, config, prefix="c16.dbgsize", counter="primitive_conversi
         view = mir.BodyView(b)
         report.count(counter)
         dbg, rel = _guards(view)
-        callee_rel = 0
-        for bi, t in view.calls():
-            if view.blocks[bi]["cleanup"]:
-                continue
-            res = t["f"].get("res")
-            cb = facts.bodies.get(res) if res else None
-            if cb is not None:
-                callee_rel += _guards(mir.BodyView(cb))[1]
+        callee_rel = _release_guards_below(facts, view, 0, {b["id"]})
         key = "%s|%s" % (prefix, norm_id(b["id"]))
         if dbg and not rel and not callee_rel:
             report.add(Instance(key, prefix, "violation",
